@@ -99,6 +99,12 @@ class R:
             if isinstance(e.op, ast.Add) and num(l) and num(r): return (f"({num(l)} + {num(r)})", "q")
             if isinstance(e.op, ast.Sub) and num(l) and num(r): return (f"({num(l)} - {num(r)})", "q")
             if isinstance(e.op, ast.Mult) and num(l) and num(r): return (f"({num(l)} * {num(r)})", "q")
+        if u == "self.k" and "__k" in env: return (env["__k"][0], "nat")
+        if isinstance(e, ast.IfExp) and U(e.test) in ("self.k is None", "self.k is not None"):
+            # a choice on whether a cut-off is configured: the cut-off is a natural number in the branch that has one
+            absent, present = (e.body, e.orelse) if U(e.test) == "self.k is None" else (e.orelse, e.body)
+            a, b = self.ex(absent, env), self.ex(present, {**env, "__k": ("kk", "nat")})
+            if a[1] == "nat" and b[1] == "nat": return (f"(match k with | none => {a[0]} | some kk => {b[0]})", "nat")
         if isinstance(e, ast.IfExp):
             c = self.ex(e.test, env); a, b = self.ex(e.body, env), self.ex(e.orelse, env)
             if c[1] == "bool" and a[1] in ("q", "qlit") and b[1] in ("q", "qlit"): return (f"(if {c[0]} then {a[0]} else {b[0]})", "q")
